@@ -52,3 +52,27 @@ Definition h_agree (c : hcase) : bool := match c with CHeld l => forallb h_ok l 
     overwritten for, another exchange while the caller holds it). *)
 Definition h_spec (c : hcase) : bool := match c with CHeld l => forallb h_ok l end.
 Definition h_nontrivial (c : hcase) : bool := match c with CHeld l => (3 <=? length l)%nat end.
+
+(** * A failed stream write, then two exchanges at once (harness/idx WriteFault)
+
+    On one QUIC connection: [nfail] exchanges whose stream write fails (the peer reset the stream), then the
+    exchanges of [l] run concurrently, every one of them having built its payload before the first of them
+    writes it; the fake server answers on each stream the query that arrived on that stream. [nfailed] of the
+    first group returned an error; [None] in [l] = that call returned an error. *)
+Inductive wcase := CWf (nfail nfailed : N) (l : list (option icase)).
+
+(** The model: a failing write fails its own call and leaves nothing behind; with an honest server and no fault
+    on their own streams the later calls all succeed, each as [i_agree] says. *)
+Definition w_agree (c : wcase) : bool :=
+  match c with
+  | CWf nfail nfailed l =>
+    (nfail =? nfailed) && forallb (fun x => match x with Some i => i_agree i | None => false end) l
+  end.
+(** C01: each call that succeeds sent its own question (id 0) on its stream and returns the answer to it under
+    its own id, whatever happened to earlier calls and whatever else is in flight. *)
+Definition w_spec (c : wcase) : bool :=
+  match c with
+  | CWf _ _ l => forallb (fun x => match x with Some i => i_spec i | None => true end) l
+  end.
+Definition w_nontrivial (c : wcase) : bool :=
+  match c with CWf nfail _ l => (1 <=? nfail) && (2 <=? length l)%nat end.
